@@ -8,6 +8,15 @@ T = TypeVar('T')
 SEG = '__'
 
 
+def is_subclass(cls, base) -> bool:
+    try:
+        return issubclass(cls, base)
+    except TypeError:
+        # a class that refuses the subclass test (e.g. a Protocol that is not runtime-checkable, a TypedDict)
+        # still has its declared subclasses
+        return base in getattr(cls, "__mro__", ())
+
+
 class TypeRegistry:
     def __init__(self,
                  name: str = 'default',
@@ -62,7 +71,7 @@ class TypeRegistry:
             def detector(_cls):
                 if classes:
                     if allow_subclasses:
-                        if not issubclass(_cls, classes):
+                        if not any(is_subclass(_cls, c) for c in classes):
                             return False
                     else:
                         if _cls not in classes:
